@@ -84,7 +84,24 @@ def gen_plan(tape, cfg):
         spec = calls.gen_call(tape, len(pool), lambda i: pool[i], symbols, richgen, ctx)
         spec["client"] = c
         ops.append(spec)
+    if tape.chance(1, 60, "bulk?"):
+        # a long-lived environment: one client walks a very large formula (more sub-formulas than
+        # any bounded table may hold) with one of the services, in the middle of the history
+        pos = tape.rint(len(ops) // 4, max(len(ops) // 4, len(ops) * 3 // 4), "bulk.at")
+        ops.insert(pos, {"call": "bulk", "i": 0, "client": tape.draw(nclients, "bulk.client"),
+                         "service": tape.choice(["free_vars", "simplify", "size", "atoms", "is_qf", "types", "theory"], "bulk.service"),
+                         "n": tape.choice([23000, 23000, 45000], "bulk.n"), "measure": 0})
     return {"symbols": symbols, "pool": pool, "clients": nclients, "ops": ops}
+
+
+def _bulk(env, spec):
+    """walk a formula of > 65536 distinct sub-formulas with one service of the aged environment"""
+    import pysmt.typing as T
+    mgr = env.formula_manager
+    x = mgr.Symbol("bulk_x", T.INT)
+    zero = mgr.Int(0)
+    big = mgr.And([mgr.GT(mgr.Plus(x, mgr.Int(j)), zero) for j in range(1, spec["n"])])
+    calls.perform(env, {"call": spec["service"], "measure": spec.get("measure", 0)}, big, None, ())
 
 
 def shrink_plan(plan):
@@ -170,6 +187,8 @@ def execute(plan, tape):
     parsers = {}            # client -> its long-lived SmtLibParser
     models = {}             # client -> its long-lived (partial) EagerModel
     registrations = []      # generic solvers registered with the aged environment's factory
+    dwf_regs = []           # dynamic walker functions registered with the aged environment
+    late_decls = []         # fresh-looking names the user declared in mid-history
 
     def probe(n):
         probes[n] = probes.get(n, 0) + 1
@@ -178,6 +197,15 @@ def execute(plan, tape):
         i = spec["i"] % len(pool)
         term = pool[i]
         k = spec["call"]
+        if k == "bulk":
+            try:
+                _bulk(env, spec)
+                probe("bulk_walk_" + spec["service"])
+            except Exception as ex:
+                raise Violation("C14:bulk:raised", "walking a large formula with %s raised %s: %s" %
+                                (spec["service"], type(ex).__name__, str(ex)[:120]))
+            trace.append((spec["client"], "bulk", spec["service"]))
+            continue
         if i not in subcache:
             subcache[i] = _nonleaf_subterms(term)
         # non-triviality
@@ -247,6 +275,8 @@ def execute(plan, tape):
         with Environment() as fresh:
             _declare_all(fresh, symbols)
             _register_xnode(fresh)
+            for nm_ in late_decls:
+                calls.declare_freshlike(fresh, {"name": nm_})
             try:
                 if derived_src is None:
                     ff = bp.build(term, fresh)
@@ -288,10 +318,21 @@ def execute(plan, tape):
                     # the registrations made so far are the only history that legitimately counts
                     for reg in registrations:
                         calls.factory_register(fresh, reg)
+                for reg in dwf_regs:
+                    calls.register_dwf(fresh, reg)
+                if k in ("register_dwf", "declare_freshlike"):
+                    fspec = None        # pure history: no sequential specification to compare with
                 spec_out = calls.outcome(fresh, fspec, ff, term, user) if fspec is not None else aged
         if k == "factory" and spec.get("action") == "add" and aged[0] == "ok":
             registrations.append(dict(spec))
             probe("generic_solver_registered")
+        if k == "register_dwf" and aged[0] == "ok" and aged[2] == "registered":
+            dwf_regs.append(dict(spec))
+            probe("dynamic_walker_function_registered")
+        if k == "declare_freshlike" and aged[0] == "ok" and aged[2] == "declared":
+            late_decls.append(spec["name"])
+            user.add(spec["name"])
+            probe("freshlike_symbol_declared_late")
         for k_ in ("_dict", "_parser", "_foreign", "_others", "_first", "_first_out", "_model", "_bad_entry"):
             spec.pop(k_, None)
         if aged_build != fresh_build:
